@@ -144,6 +144,30 @@ pub fn run(ctx: &Ctx) {
                         other => ctx.violation("crc-encode-hvec", format!("{:?} want {}", other.map(|r| r.map(|o| hex(&o))), hex(&want)), order, case()),
                     }
                 }
+                // whatever the capacity, a result that is Ok must be the WHOLE frame (payload followed by its
+                // checksum): capacities between len(plain) and len(frame) are where a dropped checksum shows
+                if want.len() <= 24 {
+                    for cap in plain.len().saturating_sub(1)..=want.len() {
+                        enc_calls.fetch_add(1, Ordering::Relaxed);
+                        let mut tight = vec![0u8; cap];
+                        match trap(|| f.to_slice(&d, &mut tight).map(|o| o.to_vec())) {
+                            Ok(Ok(o)) if o != want => ctx.violation("crc-encode-truncated-frame", format!("to_slice with capacity {cap} returned Ok({}) - not the frame {}", hex(&o), hex(&want)), order, case()),
+                            Err(p) => ctx.violation("crc-encode-panic", format!("to_slice with capacity {cap}: {p}"), order, case()),
+                            _ => {}
+                        }
+                    }
+                    macro_rules! hv {
+                        ($($b:literal),*) => {$(
+                            enc_calls.fetch_add(1, Ordering::Relaxed);
+                            match trap(|| f.to_hvec::<_, $b>(&d).map(|o| o.to_vec())) {
+                                Ok(Ok(o)) if o != want => ctx.violation("crc-encode-truncated-frame", format!("heapless capacity {} returned Ok({}) - not the frame {}", $b, hex(&o), hex(&want)), order, case()),
+                                Err(p) => ctx.violation("crc-encode-panic", format!("heapless capacity {}: {p}", $b), order, case()),
+                                _ => {}
+                            }
+                        )*};
+                    }
+                    hv!(0, 1, 2, 3, 4, 5, 6, 7, 8, 9, 10, 12, 16, 20);
+                }
                 if !algos.contains(a) {
                     continue;
                 }
